@@ -63,7 +63,7 @@ CTL_MUTS.update({
  'eu_next_not_filtered': (F, "            for w in (kripke.next(v) & Lphi[1]):", "            for w in (kripke.next(v) | Lphi[1]):", ['_checkEU']),
 })
 CTL_MUTS.update({
- 'mc_no_state_guard': (F, "    if not isinstance(formula, StateFormula):\n        raise TypeError('expected a CTL state formula, got {}'.format(formula))", "    if False:\n        raise TypeError('expected a CTL state formula, got {}'.format(formula))", ['modelcheck']),
+ 'mc_no_state_guard': (F, "    if not isinstance(formula, StateFormula):\n        raise TypeError('expected a CTL state formula, got {}'.format(formula))", "    if False:\n        raise TypeError('expected a CTL state formula, got {}'.format(formula))", ['modelcheck', 'CTL.modelcheck(text)']),
  'mc_returns_states': (F, "    return _checkStateFormula(kripke, formula, L=dict())", "    _checkStateFormula(kripke, formula, L=dict())\n    return kripke.S0", ['modelcheck']),
 })
 CTL_MUTS.update({
